@@ -370,6 +370,39 @@ def run_shard(spec, tier, seed):
                         res.violation(f'C19|{year}|overlong-squeezed|{cls.form_name}', f'{cls.form_name} line {pf.field_name} -> {pf.pdf_field_name} (limit {ml}): the {len(txt)}-character text {txt!r} is written as {got_!r} instead of stopping the fill',
                                       {'engine': 'fault', 'what': 'overlong by separators', 'form': cls.form_name, 'line': pf.field_name, 'text': txt, 'shard': spec})
                         break
+        # a text outside a choice list stops the fill whatever it looks like: other letter case, padding, near misses of a listed choice
+        for cls in hx.catalogue(year):
+            for inst in hx.instances_for(cls)[:1]:
+                try:
+                    fo = cls(instance=inst) if inst else cls()
+                except BaseException:  # noqa
+                    continue
+                flds = {f.base_name(): f for f in fo.fields()}
+                for pf in (fo.pdf_fields() or []):
+                    if not isinstance(pf, PF.ChoicePDFField):
+                        continue
+                    fld = flds.get(getattr(pf, 'field_name', None))
+                    choices = [c for c in getattr(pf, '_choices', []) if isinstance(c, str)]
+                    if not isinstance(fld, F_.StringField) or not choices:
+                        continue
+                    probes = []
+                    for c in choices[:60]:
+                        probes += [c.lower(), c.capitalize(), c.swapcase(), ' ' + c, c + ' ', c + c, c[:-1], c + '.']
+                    probes += ['XX', 'N C', '??', 'zz']
+                    for txt in dict.fromkeys(probes):
+                        if txt in choices:
+                            continue
+                        res.evaluations += 1
+                        res.count('out_of_list_choice_probes')
+                        try:
+                            got_ = pf.value(txt, fld)
+                        except PF.PDFInvalidChoiceValue:
+                            continue
+                        except BaseException:  # noqa
+                            continue
+                        res.violation(f'C19|{year}|choice-not-in-list-written|{cls.form_name}', f'{cls.form_name} line {pf.field_name} -> choice box {pf.pdf_field_name}: the text {txt!r} is not one of its choices but is written as {got_!r} instead of stopping the fill',
+                                      {'engine': 'fault', 'what': 'out-of-list choice', 'form': cls.form_name, 'line': pf.field_name, 'text': txt, 'shard': spec})
+                        break
         qn = scen.plain_persona(year, 'S', 52000.0, key=f'fltnc:{seed}', nc=True, overrides={'1040.apartment_no': 'Apt 12'})
         on_ = scen.solve_persona(qn)
         if on_.exc is None and on_.ret is True:
